@@ -91,6 +91,7 @@ type TypeSpec struct {
 	Immutable map[string]bool
 	Ghost     map[string]string // ghost field -> "int"|"bool"
 	Invariant []Clause
+	ChanInv   map[string]Clause // field -> predicate over v: every value sent on the channel held by that field satisfies it (obligation at sends, assumption at receives)
 	AssumedInv []Clause // assumed when the lock is taken / at inv(x); not checked (listed as assumptions)
 	Props     []string
 }
@@ -741,6 +742,22 @@ func (sp *Specs) parseFile(path string, extern bool) error {
 			if curF != nil {
 				curF.Acquires = append(curF.Acquires, strings.Fields(strings.ReplaceAll(rest, ",", " "))...)
 			}
+		case "chan":
+			if curT == nil {
+				return fail(fmt.Errorf("chan outside type block"))
+			}
+			i := strings.Index(rest, ":")
+			if i < 0 {
+				return fail(fmt.Errorf("chan <field>: <predicate over v>"))
+			}
+			c, err := mkClause(strings.TrimSpace(rest[i+1:]))
+			if err != nil {
+				return fail(err)
+			}
+			if curT.ChanInv == nil {
+				curT.ChanInv = map[string]Clause{}
+			}
+			curT.ChanInv[strings.TrimSpace(rest[:i])] = c
 		case "assume-invariant":
 			if curT == nil {
 				return fail(fmt.Errorf("assume-invariant outside type block"))
